@@ -1,5 +1,7 @@
 //@ unit D
 //@ default-props C01 C02 C04 C05 C07 C08 C09 C10 C17 C18 C20
+// every call of a function that reaches the file system gets the ghost world (robust to added / removed call sites)
+//@ world-calls /(\w+\.)?(is_dir|is_file|rename|get_modified|is_executable|set_is_executable|execute_command)|download_file|(\w+\.)*(restore_file|back_up_file_with_ticket|back_up_file)|TicketFactory::from_(file|directory)|get_file_ticket_from_path|get_file_ticket|get_actual_file_state|(\w+\.)*(get_current_file_state_vec|update_to_match_system_file_state|resolve_remembered_file_state_vec|resolve_with_no_current_file_states)|restore_or_download|resolve_single_target|rebuild_node|resolve_with_cache|handle_rule_node|handle_source_only_node|clean_targets/ Tracked(w)
 // Unit D: cache.rs, blob.rs, history.rs (in-memory part), work.rs -- the per-rule machinery.
 // Function bodies between `//@ extract` and `//@ end` are copied from /repo/src on every run.
 use vstd::prelude::*;
@@ -112,7 +114,6 @@ impl DownloaderCache {
 //@ props C02 C05
 //@ ret res
 //@ param Tracked(w): Tracked<&mut World>
-//@ addarg 1 /download_file/ Tracked(w)
 //@ rewrite 1 /&format!\("\{\}\/\{\}", base_url, ticket\.human_readable\(\)\)/ => &fmt_slash(base_url, &ticket.human_readable())
 //@ spec
         ensures self.base_urls@.len() == 0 ==> (res is NotThere && *final(w) == *old(w)),
@@ -127,7 +128,6 @@ impl<SystemType : System> SysCache<SystemType> {
 //@ props C02 C05 C07 C08 C09 C10 C20
 //@ ret res
 //@ param Tracked(w): Tracked<&mut World>
-//@ addarg 3 /system\.(is_dir|is_file|rename)/ Tracked(w)
 //@ rewrite 1 /format!\("\{\}\/\{\}", self\.path, ticket\.human_readable\(\)\)/ => fmt_slash(&self.path, &ticket.human_readable())
 //@ spec
         requires old(self).wf(*old(w)), inv_cache(*old(w)),
@@ -154,7 +154,6 @@ impl<SystemType : System> SysCache<SystemType> {
 //@ props C05 C07 C08 C09 C10
 //@ ret res
 //@ param Tracked(w): Tracked<&mut World>
-//@ addarg 1 /system\.rename/ Tracked(w)
 //@ rewrite 1 /format!\("\{\}\/\{\}", self\.path, ticket\.human_readable\(\)\)/ => fmt_slash(&self.path, &ticket.human_readable())
 //@ spec
         requires old(self).wf(*old(w)), inv_cache(*old(w)),
@@ -181,7 +180,6 @@ impl<SystemType : System> SysCache<SystemType> {
 //@ props C05 C07 C08 C09 C10
 //@ ret res
 //@ param Tracked(w): Tracked<&mut World>
-//@ addarg 2 /TicketFactory::from_file|self\.back_up_file_with_ticket/ Tracked(w)
 //@ spec
         requires old(self).wf(*old(w)), inv_cache(*old(w)),
             old(w).targets.contains(target_path@) && !under(old(w).cache_dir, target_path@),
@@ -333,7 +331,6 @@ proof fn diff_indices_props(a: Seq<Seq<u8>>, b: Seq<Seq<u8>>, n: int)
 //@ props C15 C18 C05
 //@ ret res
 //@ param Tracked(w): Tracked<&mut World>
-//@ addarg 4 /system\.(is_dir|is_file)|TicketFactory::from_(file|directory)/ Tracked(w)
 //@ spec
     ensures *final(w) == *old(w),
         res matches Ok(Some(t)) ==> (!old(w).dirs.contains(path@) ==> file_tk(*old(w), path@, t)),    //# O-D-ticket-from-path [C07,C18]
@@ -344,7 +341,6 @@ proof fn diff_indices_props(a: Seq<Seq<u8>>, b: Seq<Seq<u8>>, n: int)
 //@ props C18 C07 C05
 //@ ret res
 //@ param Tracked(w): Tracked<&mut World>
-//@ addarg 2 /system\.get_modified|get_file_ticket_from_path/ Tracked(w)
 //@ spec
     requires rem_ok(*assumed_file_state), mt(*old(w)),     //# O-D-shortcut-pre [C18]
     ensures *final(w) == *old(w),
@@ -357,7 +353,6 @@ proof fn diff_indices_props(a: Seq<Seq<u8>>, b: Seq<Seq<u8>>, n: int)
 //@ props C18 C04 C05
 //@ ret res
 //@ param Tracked(w): Tracked<&mut World>
-//@ addarg 3 /system\.(get_modified|is_executable)|TicketFactory::from_file/ Tracked(w)
 //@ spec
     requires rem_ok(*assumed_file_state), mt(*old(w)), !old(w).dirs.contains(path@),     //# O-D-shortcut-state-pre [C18]
     ensures *final(w) == *old(w),
@@ -371,7 +366,6 @@ impl Blob {
 //@ props C01 C04 C18 C05
 //@ ret res
 //@ param Tracked(w): Tracked<&mut World>
-//@ addarg 1 /get_file_ticket/ Tracked(w)
 //@ retype 1 /let mut tickets = vec!\[\];/ => let mut tickets : Vec<Ticket> = Vec::new();
 //@ rewrite 1 /tickets\.iter\(\)\.map\(\|ticket\| ticket\.clone\(\)\)\.collect\(\)/ => clone_ticket_vec(&tickets)
 //@ spec
@@ -392,7 +386,6 @@ impl Blob {
 //@ props C01 C04 C07 C18 C05
 //@ ret res
 //@ param Tracked(w): Tracked<&mut World>
-//@ addarg 1 /get_actual_file_state/ Tracked(w)
 //@ retype 1 /let mut infos = vec!\[\];/ => let mut infos : Vec<FileState> = Vec::new();
 //@ rewrite 1 /for target_info in self\.file_infos\.iter_mut\(\)/ => for idx in 0..self.file_infos.len()
 //@ insert after 1/1 /for target_info in self\.file_infos\.iter_mut\(\)\s*\{/ => let target_info = &mut self.file_infos[idx];
@@ -424,8 +417,7 @@ impl Blob {
 //@ props C02 C05 C07 C08 C09 C10 C20
 //@ ret res
 //@ param Tracked(w): Tracked<&mut World>
-//@ addarg 3 /cache\.restore_file|downloader_cache\.restore_file|system\.set_is_executable/ Tracked(w)
-//@ rewrite 1 /println!\("Warning: failed to set executable"\);/ => <empty>
+//@ rewrite * /println!\([^;]*\);/ => <empty>
 //@ spec
     requires old(cache).wf(*old(w)), inv(*old(w)), no_urls(*downloader_cache_opt),
         old(w).targets.contains(target_info.path@) && !under(old(w).cache_dir, target_info.path@),
@@ -451,7 +443,6 @@ impl Blob {
 //@ props C02 C05 C07 C08 C09 C10 C18 C20
 //@ ret res
 //@ param Tracked(w): Tracked<&mut World>
-//@ addarg 4 /get_file_ticket|cache\.back_up_file_with_ticket|restore_or_download/ Tracked(w)
 //@ spec
     requires old(cache).wf(*old(w)), inv(*old(w)), no_urls(*downloader_cache_opt),
         old(w).targets.contains(target_info.path@) && !under(old(w).cache_dir, target_info.path@) && !old(w).dirs.contains(target_info.path@),
@@ -498,7 +489,6 @@ impl Blob {
 //@ props C02 C05 C07 C08 C09 C10 C20
 //@ ret res
 //@ param Tracked(w): Tracked<&mut World>
-//@ addarg 1 /resolve_single_target/ Tracked(w)
 //@ retype 1 /let mut resolutions = vec!\[\];/ => let mut resolutions : Vec<FileResolution> = Vec::new();
 //@ rewrite 1 /for \(i, info\) in self\.file_infos\.iter\(\)\.enumerate\(\)/ => for i in 0..self.file_infos.len()
 //@ insert after 1/1 /for \(i, info\) in self\.file_infos\.iter\(\)\.enumerate\(\)\s*\{/ => let info = &self.file_infos[i];
@@ -628,7 +618,6 @@ impl Blob {
 //@ props C01 C05 C07 C08 C09
 //@ ret res
 //@ param Tracked(w): Tracked<&mut World>
-//@ addarg 2 /get_file_ticket|cache\.back_up_file_with_ticket/ Tracked(w)
 //@ retype 1 /let mut resolutions = vec!\[\];/ => let mut resolutions : Vec<FileResolution> = Vec::new();
 //@ spec
         requires old(cache).wf(*old(w)), inv(*old(w)), self.wf(*old(w)), self.all_rem_ok(),
@@ -773,7 +762,6 @@ spec fn path_strs(paths: Seq<Seq<char>>, idx: Seq<usize>) -> Seq<Seq<char>> { Se
 //@ props C01 C02 C04 C05 C07 C17 C18 C20
 //@ ret res
 //@ param Tracked(w): Tracked<&mut World>
-//@ addarg 2 /system\.execute_command|blob\.update_to_match_system_file_state/ Tracked(w)
 //@ retype 1 /let mut contradicting_target_paths = Vec::new\(\);/ => let mut contradicting_target_paths : Vec<String> = Vec::new();
 //@ spec
     requires inv(*old(w)), blob.wf(*old(w)), blob.all_rem_ok(),
@@ -829,7 +817,6 @@ spec fn path_strs(paths: Seq<Seq<char>>, idx: Seq<usize>) -> Seq<Seq<char>> { Se
 //@ props C01 C02 C05 C07 C08 C09 C10 C20
 //@ ret res
 //@ param Tracked(w): Tracked<&mut World>
-//@ addarg 3 /blob\.resolve_remembered_file_state_vec|blob\.resolve_with_no_current_file_states/ Tracked(w)
 //@ spec
     requires old(cache).wf(*old(w)), inv(*old(w)), no_urls(*downloader_cache_opt), no_urls_h(*downloader_rule_history_opt),
         blob.wf(*old(w)), blob.all_rem_ok(),
@@ -862,7 +849,6 @@ spec fn hrn_trace(a: World, b: World, script: Seq<Seq<char>>, paths: Seq<Seq<cha
 //@ props C01 C02 C03 C04 C05 C07 C08 C09 C10 C17 C18 C20
 //@ ret res
 //@ param Tracked(w): Tracked<&mut World>
-//@ addarg 3 /resolve_with_cache|rebuild_node|info\.blob\.get_current_file_state_vec/ Tracked(w)
 //@ spec
     requires rule_ext.cache.wf(*old(w)), inv(*old(w)), no_urls(rule_ext.downloader_cache_opt), no_urls_h(rule_ext.downloader_rule_history_opt),
         info.blob.wf(*old(w)), info.blob.all_rem_ok(),
@@ -924,7 +910,6 @@ spec fn hrn_trace(a: World, b: World, script: Seq<Seq<char>>, paths: Seq<Seq<cha
 //@ props C01 C03 C04 C09 C05
 //@ ret res
 //@ param Tracked(w): Tracked<&mut World>
-//@ addarg 1 /blob\.get_current_file_state_vec/ Tracked(w)
 //@ spec
     requires blob.all_rem_ok(), mt(*old(w)), blob.wf(*old(w)),
     ensures *final(w) == *old(w),                                                                       //# O-D-leaf-readonly [C09]
@@ -938,7 +923,6 @@ spec fn hrn_trace(a: World, b: World, script: Seq<Seq<char>>, paths: Seq<Seq<cha
 //@ props C05 C07 C08 C09 C10
 //@ ret res
 //@ param Tracked(w): Tracked<&mut World>
-//@ addarg 4 /system\.is_file|get_file_ticket|cache\.back_up_file_with_ticket|cache\.back_up_file/ Tracked(w)
 //@ spec
     requires old(cache).wf(*old(w)), inv(*old(w)), blob.wf(*old(w)), blob.all_rem_ok(),
     ensures final(cache).wf(*final(w)), final(cache).path@ == old(cache).path@,
